@@ -25,7 +25,9 @@ CONFIGS = [
     (2, 2, [], [(1, 1)], False),
     (2, 2, [], [], True),
     (2, 2, [(2, 2)], [(2, 1)], True),
+    (2, 2, [(1, 1)], [], False, 9999),       # a connection that has served 9999 requests before
 ]
+VERBS = ('get', 'post', 'put', 'delete', 'patch')
 
 
 class _Unserialisable:
@@ -49,10 +51,10 @@ class _Resp:
         return False
 
 
-def _mc_cfg(nt, reqs):
+def _mc_cfg(nt, reqs, start=0):
     return ('SPECIFICATION Spec\nCHECK_DEADLOCK FALSE\nCONSTANTS\n  Threads = {%s}\n  Reqs = %d\n'
-            '  OwnChoices <- OwnChoicesStd\n  FailChoices <- FailChoicesStd\nINVARIANT Unique\nINVARIANT GapFree\nINVARIANT CounterCounts\n'
-            'INVARIANT MutualExclusion\nPROPERTY AllDone\n' % (', '.join(str(i + 1) for i in range(nt)), reqs))
+            '  OwnChoices <- OwnChoicesStd\n  FailChoices <- FailChoicesStd\n  Start = %d\nINVARIANT Unique\nINVARIANT GapFree\nINVARIANT CounterCounts\n'
+            'INVARIANT MutualExclusion\nPROPERTY AllDone\n' % (', '.join(str(i + 1) for i in range(nt)), reqs, start))
 
 
 def run(ctx):
@@ -66,6 +68,7 @@ def run(ctx):
     ]
     # 1. the design: all interleavings
     ctx.tlc('http/ReqId.tla', _mc_cfg(2, 2), workers=8, timeout=1800)
+    ctx.tlc('http/ReqId.tla', _mc_cfg(2, 2, 9999), workers=8, timeout=1800)
     ctx.tlc('http/ReqId.tla', _mc_cfg(3, 1 if ctx.quick else 2), workers=16, timeout=3600)
     # 2. all schedules of the real code, each execution recorded
     conn_http._HttpConnImpl._make_opener = staticmethod(lambda is_https, if_http_debug=False: None)
@@ -82,12 +85,17 @@ def run(ctx):
     total = 0
     limit = 12000 if ctx.quick else 200000
     try:
-        for nt, reqs, own, fail, shared in CONFIGS:
-            def make_bodies(nt=nt, reqs=reqs, own=own, fail=fail, shared=shared):
+        for cfg in CONFIGS:
+            nt, reqs, own, fail, shared = cfg[:5]
+            start = cfg[5] if len(cfg) > 5 else 0
+
+            def make_bodies(nt=nt, reqs=reqs, own=own, fail=fail, shared=shared, start=start):
                 base = conn_http.HttpConn('http://h:1')
                 impl = base.conn_impl
                 holder['impl'] = impl
                 part = impl._reqid_connection_part
+                if start:
+                    impl._cur_req_id = start          # the state of a connection that has served `start` requests
 
                 class Op:
                     def open(self, request):
@@ -112,21 +120,22 @@ def run(ctx):
                     def body(t=t):
                         c = conns[(t - 1) % len(conns)]
                         for r in range(1, reqs + 1):
+                            verb = getattr(c, VERBS[(t + r) % 5])
                             if (t, r) in [tuple(x) for x in own]:
                                 mine = 'mine-%d-%d' % (t, r)
-                                c.get('/x', headers={'X-Request-ID': mine, 'X-Mine': mine})
+                                verb('/x', headers={'X-Request-ID': mine, 'X-Mine': mine})
                             elif (t, r) in [tuple(x) for x in fail]:
                                 try:
                                     c.post('/x', data={'k': _Unserialisable()}, headers=caller_headers)
                                 except TypeError:
                                     sch.trace.append({'t': t, 'k': 'fail', 'v': 0})
                             else:
-                                c.get('/x', headers=caller_headers)
+                                verb('/x', headers=caller_headers)
                     bodies.append(body)
 
                 def finish(trace, chosen):
                     return {'threads': nt, 'reqs': reqs, 'own': [list(x) for x in own], 'fail': [list(x) for x in fail],
-                            'shared_headers': shared,
+                            'shared_headers': shared, 'start': start,
                             'ev': [{'t': e['t'], 'k': e['k'], 'v': (e['v'] if e['v'] is not None else -9)}
                                    for e in trace], 'schedule': chosen}
                 return bodies, finish, None
@@ -136,7 +145,7 @@ def run(ctx):
                 execs.append(res)
             total += len(execs)
             groups.setdefault((nt, reqs), []).extend(execs)
-            ctx.extra.setdefault('schedules_per_config', {})['%dx%d own=%s fail=%s shared_headers=%s' % (nt, reqs, own, fail, shared)] = len(execs)
+            ctx.extra.setdefault('schedules_per_config', {})['%dx%d own=%s fail=%s shared_headers=%s start=%d' % (nt, reqs, own, fail, shared, start)] = len(execs)
             if len(execs) >= limit:
                 ctx.extra['schedule_limit_hit'] = True
     finally:
@@ -146,13 +155,13 @@ def run(ctx):
     nviol = 0
     for (nt, reqs), execs in groups.items():
         # negative self-tests (synthetic): duplicate id; gap
-        dup = {'threads': nt, 'reqs': reqs, 'own': [], 'fail': [], 'ev': [{'t': 1 + (i % nt), 'k': 'send', 'v': 0} for i in range(nt * reqs)], 'schedule': []}
-        gap = {'threads': nt, 'reqs': reqs, 'own': [], 'fail': [], 'ev': [{'t': 1 + (i % nt), 'k': 'send', 'v': i + 1} for i in range(nt * reqs)], 'schedule': []}
+        dup = {'threads': nt, 'reqs': reqs, 'own': [], 'fail': [], 'start': 0, 'ev': [{'t': 1 + (i % nt), 'k': 'send', 'v': 0} for i in range(nt * reqs)], 'schedule': []}
+        gap = {'threads': nt, 'reqs': reqs, 'own': [], 'fail': [], 'start': 0, 'ev': [{'t': 1 + (i % nt), 'k': 'send', 'v': i + 1} for i in range(nt * reqs)], 'schedule': []}
         allc = execs + [dup, gap]
         path = os.path.join(ctx.tmp, 'c16_%d_%d.ndjson' % (nt, reqs))
         with open(path, 'w') as f:
             for c in allc:
-                f.write(json.dumps({k: c[k] for k in ('threads', 'reqs', 'own', 'fail', 'ev')}) + '\n')
+                f.write(json.dumps({k: c[k] for k in ('threads', 'reqs', 'own', 'fail', 'start', 'ev')}) + '\n')
         r = ctx.tlc('http/ReqIdJudge.tla', 'SPECIFICATION Spec\nCHECK_DEADLOCK FALSE\nCONSTANTS\n  NT = %d\n  Reqs = %d\n' % (nt, reqs),
                     env={'CASES': path}, workers=16, timeout=3600)
         verd = {}
@@ -171,7 +180,7 @@ def run(ctx):
                 nviol += 1
                 sends = [(e['t'], e['v']) for e in c['ev'] if e['k'] == 'send']
                 ctx.violation({'threads': nt, 'reqs': reqs, 'own': c['own'], 'fail': c['fail'],
-                               'shared_headers': c.get('shared_headers', False), 'schedule': c['schedule']},
+                               'shared_headers': c.get('shared_headers', False), 'start': c.get('start', 0), 'schedule': c['schedule']},
                               'schedule %s of %d threads x %d requests: ids that reached the opener (thread, number; -1 = '
                               'caller id unchanged, -2 = caller id altered/consumed, -3 = malformed): %s' % (
                                   c['schedule'], nt, reqs, sends))
@@ -201,6 +210,9 @@ def replay(ctx, case):
         base = conn_http.HttpConn('http://h:1')
         impl = base.conn_impl
         holder['impl'] = impl
+        start = case.get('start', 0)
+        if start:
+            impl._cur_req_id = start
         seen = []
 
         class Op:
@@ -215,15 +227,16 @@ def replay(ctx, case):
             def body(t=t):
                 c = conns[(t - 1) % len(conns)]
                 for r in range(1, reqs + 1):
+                    verb = getattr(c, VERBS[(t + r) % 5])
                     if (t, r) in own:
-                        c.get('/x', headers={'X-Request-ID': 'mine-%d-%d' % (t, r)})
+                        verb('/x', headers={'X-Request-ID': 'mine-%d-%d' % (t, r)})
                     elif (t, r) in fail:
                         try:
                             c.post('/x', data={'k': _Unserialisable()}, headers=caller_headers)
                         except TypeError:
                             pass
                     else:
-                        c.get('/x', headers=caller_headers)
+                        verb('/x', headers=caller_headers)
             bodies.append(body)
         sch.run(bodies, case['schedule'])
     finally:
@@ -233,7 +246,7 @@ def replay(ctx, case):
     nums = sorted(int(str(s)[-12:]) for s in gen)
     mine = [s for s in seen if s and str(s).startswith('mine-')]
     nf = len(fail)
-    if (len(set(nums)) != len(nums) or (nums and nums[-1] > len(gen) + nf - 1) or len(gen) != nt * reqs - len(own) - nf
+    if (len(set(nums)) != len(nums) or (nums and (nums[-1] > start + len(gen) + nf - 1 or nums[0] < start)) or len(gen) != nt * reqs - len(own) - nf
             or len(mine) != len(own)):
         return 'ids %s' % seen
     return None
